@@ -1,14 +1,164 @@
 (* C01 — Server request framing follows RFC 9112 (no request smuggling).  Statements only;
-   proofs live in Proof/FramingProof.v. *)
-From FH Require Import Model.Base Model.Lines Model.ReqHead Model.Body Model.Framing Spec.Rfc9112 Check.C01Check Proof.FramingProof.
+   proofs live in Proof/FramingProof.v.
+
+   Vocabulary.  Model/Framing.v: serve_frames cfg stream = (dispatched requests, responses, outcome) models
+   Server.serveConnCounted restricted to framing (head via ReqHead.req_head_parse, body via Model/Body.v);
+   code_decision (HTTP/1.0?) TEs CLs = what RequestHeader.parseHeaders decides from the Transfer-Encoding and
+   Content-Length values it scanned: reject, or accept with contentLength (-2 none / -1 chunked / n) and a forced
+   connectionClose.  HeadFields w line l: in the buffered bytes w the code's own first-line parser finds the
+   request line `line` and its own header scanner yields exactly the fields l (key, value, keyHasSpace) and stops
+   without error; te_vals / cl_vals pick the values of the fields parseHeaders treats as Transfer-Encoding /
+   Content-Length.  Spec/Rfc9112.v: rfc_decision (HTTP/1.1?) TEs CLs = RFC 9112 section 6.3 (class Clean /
+   AmbiguousMustClose / Invalid and body length); rfc_frame = the whole RFC framing of a byte stream (the oracle
+   prop_ok runs on the implementation's observed dispatch sequence, Check/C01Check.v).
+   wf_bytes: every element is < 256 (the streams are byte strings).
+
+   FULL STATEMENT of C01_dispatch_is_rfc_prefix (proved only in part, see C01_dispatch_is_rfc_prefix_partial):
+     forall cfg s, wf_bytes s -> let ds := dispatched (serve_frames cfg s) in
+       exists ms rest, s = concat ms ++ rest /\ length ms = length ds /\
+         forall i, rfc_message (concat (skipn i ms) ++ rest) = MMsg r_i c_i (Some (concat (skipn (S i) ms) ++ rest))
+                   with r_i = (method, target, body) of ds_i.
+   Missing for the full statement: (a) the RFC's own lexical reading of a head (Rfc9112.field_lines over the raw
+   bytes) yields the same CL/TE values as the code's scanner (HeadFields) — here the class is judged on the
+   scanner's fields; (b) Body.readBodyChunked succeeding implies Rfc9112.chunked_body yields the same data and
+   rest.  Both are checked on every harness case by prop_ok (rfc_frame runs on the raw bytes). *)
+From FH Require Import Model.Base Model.Lines Model.ReqHead Model.Body Model.Framing Spec.Rfc9112 Spec.HeadSpec
+  Check.C01Check Proof.FramingProof.
 Open Scope nat_scope.
 
+(* ---- 1. the framing decision table: for EVERY version flag and EVERY pair of value lists, whenever the code
+        accepts, the RFC does not call the framing Invalid, every non-Clean class forces connectionClose, and the
+        body length source is the RFC's ---- *)
+Theorem C01_framing_decision : forall (v11 : bool) (tes cls : list bytes),
+  Forall wf_bytes tes -> Forall wf_bytes cls ->
+  match code_decision (negb v11) tes cls with
+  | CReject => True                                  (* 400 + close is always allowed *)
+  | CAccept cl close =>
+      d_class (rfc_decision v11 tes cls) <> Invalid /\
+      (d_class (rfc_decision v11 tes cls) <> Clean -> close = true) /\
+      match d_len (rfc_decision v11 tes cls) with
+      | BFixed n => cl = Z.of_N n \/ (n = 0%N /\ cl = (-2)%Z)
+      | BChunked => cl = (-1)%Z
+      | BNone => True
+      end
+  end.
+Proof. exact framing_decision. Qed.
+Print Assumptions C01_framing_decision.
+
+(* ---- 2. parseHeaders' loop IS that decision: folded over any list of scanned fields (any interleaving of
+        CL / TE / other fields), success means code_decision accepts with exactly the resulting state ---- *)
+Theorem C01_parseHeaders_is_decision : forall cfg noHTTP11 (l : list kv3) st,
+  disable_special cfg = false ->
+  steps cfg noHTTP11 rq_init l = Ok (StOk st) ->
+  code_decision noHTTP11 (te_vals cfg l) (cl_vals cfg l) =
+    CAccept (q_cl st) (q_closeAfter st || (q_clSeen st && q_teSeen st)).
+Proof. exact steps_decision. Qed.
+Print Assumptions C01_parseHeaders_is_decision.
+
+(* ---- 3. an accepted head (RequestHeader.parse + validate returned nil on the buffered bytes w): the framing
+        it carries away (contentLength, connectionClose) is the RFC's for the fields its scanner produced ---- *)
+Theorem C01_accepted_head_framing : forall cfg w hd n,
+  disable_special cfg = false -> wf_bytes w -> req_head_parse cfg w = HOk (hd, n) ->
+  exists line l, HeadFields w line l /\ http11 hd = negb (rl_noHTTP11 line) /\
+    meth hd = rl_method line /\ target hd = rl_uri line /\
+    let r := rfc_decision (http11 hd) (te_vals cfg l) (cl_vals cfg l) in
+    d_class r <> Invalid /\ (d_class r <> Clean -> conn_close hd = true) /\
+    match d_len r with
+    | BFixed k => content_length hd = Z.of_N k \/ (k = 0%N /\ content_length hd = (-2)%Z)
+    | BChunked => content_length hd = (-1)%Z
+    | BNone => True
+    end.
+Proof. exact head_decision_sound. Qed.
+Print Assumptions C01_accepted_head_framing.
+
+(* ---- 4. a request whose framing is not Clean is never followed by another request on the connection:
+        all configurations, all byte streams ---- *)
+Theorem C01_ambiguous_is_last : forall c s i d line l,
+  wf_bytes s ->
+  nth_error (disp (serve_frames c s)) i = Some d ->
+  HeadFields (dp_win d) line l ->
+  d_class (rfc_decision (negb (rl_noHTTP11 line)) (te_vals (hcfg_of c) l) (cl_vals (hcfg_of c) l)) <> Clean ->
+  S i = length (disp (serve_frames c s)).
+Proof. exact ambiguous_is_last. Qed.
+Print Assumptions C01_ambiguous_is_last.
+
+(* ---- 5. Invalid framing is never dispatched ... ---- *)
+Theorem C01_invalid_never_dispatched : forall c s i d line l,
+  wf_bytes s ->
+  nth_error (disp (serve_frames c s)) i = Some d ->
+  HeadFields (dp_win d) line l ->
+  d_class (rfc_decision (negb (rl_noHTTP11 line)) (te_vals (hcfg_of c) l) (cl_vals (hcfg_of c) l)) <> Invalid.
+Proof. exact invalid_not_dispatched. Qed.
+Print Assumptions C01_invalid_never_dispatched.
+
+(* ---- ... it is answered with the error response (400, Connection: close) and the connection is closed,
+        in ANY state of the serve loop (rem = the unread input, whatever was served before) ---- *)
+Theorem C01_invalid_rejected_and_closed : forall c fuel rem off line l,
+  rem <> [] -> wf_bytes rem ->
+  HeadFields (firstn (c_bsize c) rem) line l ->
+  d_class (rfc_decision (negb (rl_noHTTP11 line)) (te_vals (hcfg_of c) l) (cl_vals (hcfg_of c) l)) = Invalid ->
+  serve (S fuel) c rem off = ([], [{| rs_status := 400%Z; rs_close := true |}], OErr).
+Proof. exact invalid_rejected. Qed.
+Print Assumptions C01_invalid_rejected_and_closed.
+
+(* ---- 6. after each dispatched request the server continues at the exact next message boundary, or closes:
+        the requests occupy consecutive stream segments starting at offset 0; a request followed by another one
+        did not carry connectionClose; when none follows, the connection is closed (every outcome of
+        serve_frames is a close: OEof / OEofBody / OClosed / OErr) ---- *)
+Theorem C01_continue_or_close : forall c s i d,
+  nth_error (disp (serve_frames c s)) i = Some d ->
+  dp_off d + dp_len d <= length s /\ 0 < dp_hlen d <= dp_len d /\
+  (i = 0 -> dp_off d = 0) /\
+  match nth_error (disp (serve_frames c s)) (S i) with
+  | Some d' => dp_off d' = dp_off d + dp_len d /\ dp_close d = false
+  | None => True
+  end.
+Proof. exact continue_or_close. Qed.
+Print Assumptions C01_continue_or_close.
+
+(* ---- 7. boundaries, method, target, body — the part the imported head / body theorems give:
+        the head of a dispatched request is exactly the shortest prefix (of the input at its offset) that ends in a
+        blank line under the LF-tolerant line rule of RFC 9112 section 2.2 (Spec.HeadSpec.head_len); method and
+        target are those of its request line; when the RFC assigns a fixed length k (valid single Content-Length,
+        or none: k = 0) the message is head + exactly k octets and the handler's body is those k octets
+        (None: pre-parsed into a multipart form, the k octets are consumed all the same) ---- *)
+Theorem C01_dispatch_is_rfc_prefix_partial : forall c s i d,
+  wf_bytes s -> nth_error (disp (serve_frames c s)) i = Some d ->
+  head_len (skipn (dp_off d) s) = Some (dp_hlen d) /\
+  exists line l, HeadFields (dp_win d) line l /\ dp_method d = rl_method line /\ dp_uri d = rl_uri line /\
+    match d_len (rfc_decision (negb (rl_noHTTP11 line)) (te_vals (hcfg_of c) l) (cl_vals (hcfg_of c) l)) with
+    | BFixed k => dp_len d = dp_hlen d + N.to_nat k /\
+                  (dp_body d = None \/ dp_body d = Some (firstn (N.to_nat k) (skipn (dp_off d + dp_hlen d) s)))
+    | _ => True
+    end.
+Proof. exact dispatch_prefix_partial. Qed.
+Print Assumptions C01_dispatch_is_rfc_prefix_partial.
+
+(* ---- 8. configuration.  FULL statement ("the dispatched sequence is the same for all configurations") is
+        false by design of the options: GetOnly rejects other methods, DisablePreParseMultipartForm changes how a
+        multipart body is handed over, ReadBufferSize bounds the head, and with DisableHeaderNamesNormalizing the
+        exact-name lookups of Connection (HTTP/1.0 keep-alive) and Content-Encoding miss non-canonical spellings.
+        Proved: ReduceMemoryUsage is not consulted at all, and which fields count as Content-Length /
+        Transfer-Encoding — hence the framing decision and its RFC class — does not depend on
+        DisableHeaderNamesNormalizing. ---- *)
+Theorem C01_cfg_independent_reduce : forall b c s,
+  serve_frames (set_reduce b c) s = serve_frames c s.
+Proof. intros b c s. apply serve_reduce_indep. Qed.
+Print Assumptions C01_cfg_independent_reduce.
+
+Theorem C01_cfg_independent_fields : forall cfg cfg' (l : list kv3),
+  Forall (fun x => wf_bytes (fst (fst x))) l ->
+  te_vals cfg l = te_vals cfg' l /\ cl_vals cfg l = cl_vals cfg' l.
+Proof. exact framing_fields_norm_indep. Qed.
+Print Assumptions C01_cfg_independent_fields.
+
+(* ================= non-vacuity ================= *)
 Definition crlf : bytes := [CR; LF].
 Definition get (p : string) : bytes := s2b "GET " ++ s2b p ++ s2b " HTTP/1.1" ++ crlf ++ s2b "Host: h" ++ crlf ++ crlf.
 Definition cfg0 : fcfg := mkc false false false false 4096 4194304.
 
-(* non-vacuity: a three-request pipeline whose middle request has a chunked body with extensions and
-   trailers is dispatched as three requests, and these are the RFC's three messages *)
+(* a three-request pipeline whose middle request has a chunked body with extensions and trailers is dispatched
+   as three requests, and these are the RFC's three messages *)
 Definition ex_pipeline : bytes :=
   get "/1" ++
   s2b "POST /2 HTTP/1.1" ++ crlf ++ s2b "Host: h" ++ crlf ++ s2b "Transfer-Encoding: chunked" ++ crlf ++ crlf ++
@@ -21,4 +171,37 @@ Example C01_ex_three_requests :
           [(200%Z, false); (200%Z, false); (200%Z, false)], false)
   /\ map (fun x => snd x) (rfc_requests ex_pipeline) = [Clean; Clean; Clean]
   /\ prop_ok (C01Case ex_pipeline [Run cfg0 [Obs [(s2b "GET", s2b "/1", Some []); (s2b "POST", s2b "/2", Some (s2b "abc0123456789")); (s2b "GET", s2b "/3", Some [])] []]]) = true.
+Proof. vm_compute. repeat split; reflexivity. Qed.
+
+(* the three repaired defects: the ambiguous request is served, answered with Connection: close, and the
+   request pipelined behind it is not; the oracle rejects the old behaviour (both served) *)
+Definition ex_te_identity : bytes :=
+  s2b "POST /a HTTP/1.1" ++ crlf ++ s2b "Host: h" ++ crlf ++ s2b "Transfer-Encoding: identity" ++ crlf ++
+  s2b "Content-Length: 3" ++ crlf ++ crlf ++ s2b "abc" ++ get "/b".
+Definition ex_cl_te : bytes :=
+  s2b "POST /a HTTP/1.1" ++ crlf ++ s2b "Host: h" ++ crlf ++ s2b "Content-Length: 3" ++ crlf ++
+  s2b "Transfer-Encoding: chunked" ++ crlf ++ crlf ++ s2b "3" ++ crlf ++ s2b "abc" ++ crlf ++ s2b "0" ++ crlf ++ crlf ++ get "/b".
+Example C01_ex_ambiguous_closed :
+  model_obs cfg0 ex_te_identity = Some ([(s2b "POST", s2b "/a", Some (s2b "abc"))], [(200%Z, true)], false)
+  /\ model_obs cfg0 ex_cl_te = Some ([(s2b "POST", s2b "/a", Some (s2b "abc"))], [(200%Z, true)], false)
+  /\ map (fun x => snd x) (rfc_requests ex_te_identity) = [AmbiguousMustClose]
+  /\ map (fun x => snd x) (rfc_requests ex_cl_te) = [AmbiguousMustClose]
+  /\ code_decision false [s2b "identity"] [s2b "3"] = CAccept 3%Z true
+  /\ code_decision false [s2b "chunked"] [s2b "3"] = CAccept (-1)%Z true
+  /\ prop_ok (C01Case ex_cl_te [Run cfg0 [Obs [(s2b "POST", s2b "/a", Some (s2b "abc")); (s2b "GET", s2b "/b", Some [])] []]]) = false
+  /\ prop_ok (C01Case ex_te_identity [Run cfg0 [Obs [(s2b "POST", s2b "/a", Some (s2b "abc")); (s2b "GET", s2b "/b", Some [])] []]]) = false.
+Proof. vm_compute. repeat split; reflexivity. Qed.
+
+(* Invalid framing: rejected by the code, Invalid for the RFC, and the oracle rejects a server that dispatches it *)
+Definition ex_dup_cl : bytes :=
+  s2b "POST /a HTTP/1.1" ++ crlf ++ s2b "Host: h" ++ crlf ++ s2b "Content-Length: 3" ++ crlf ++
+  s2b "Content-Length: 4" ++ crlf ++ crlf ++ s2b "abcd" ++ get "/b".
+Example C01_ex_invalid :
+  model_obs cfg0 ex_dup_cl = Some ([], [(400%Z, true)], false)
+  /\ map (fun x => snd x) (rfc_requests ex_dup_cl) = [Invalid]
+  /\ code_decision false [] [s2b "3"; s2b "4"] = CReject
+  /\ d_class (rfc_decision true [] [s2b "3"; s2b "4"]) = Invalid
+  /\ d_class (rfc_decision true [s2b "gzip"] []) = Invalid /\ code_decision false [s2b "gzip"] [] = CReject
+  /\ d_class (rfc_decision false [s2b "chunked"] []) = AmbiguousMustClose /\ code_decision true [s2b "chunked"] [] = CReject
+  /\ prop_ok (C01Case ex_dup_cl [Run cfg0 [Obs [(s2b "POST", s2b "/a", Some (s2b "abc"))] []]]) = false.
 Proof. vm_compute. repeat split; reflexivity. Qed.
